@@ -139,6 +139,13 @@ def run(ctx):
     thorough = ctx.tier == 'thorough'
     rng = random.Random(ctx.seed + 6)
     stmts = QUERIES + DML
+    # the same statements with other white space inside their two-word keywords (a spelling the library rejects is skipped)
+    import re as _re
+    two = _re.compile(r'\b(nulls first|nulls last|order by|group by|is not|not in|not like|left join|full join|union all|is null|not exists)\b', _re.I)
+    for q in list(QUERIES + DML):
+        if two.search(q):
+            for gap in ('  ', '\n\t', ' \t '):
+                stmts.append(two.sub(lambda m_: m_.group(1).replace(' ', gap), q))
     rendered = pmap(_render, stmts, chunksize=8)
     tables = [{'db': 'main', 'name': n, 'cols': c} for n, c in SCHEMA.items()]
     obs, meta = [], []
